@@ -116,7 +116,51 @@ impl Property for C10 {
     }
 }
 
+/// Opt-out must survive every wrapper the library provides: `Arc<T>`, `OnceInitCell<T, _>`, `OnceInitCell<Option<T>, _>` of
+/// a type that declares HOT_RELOADED = false are loaded from a cache with a reloader, the file is edited and notified,
+/// and after hot_reload each must hold what it held, with reload id NEVER. A reloadable control proves the pass ran.
+fn optout_wrappers() {
+    use assets_manager::{AssetCache, OnceInitCell};
+    use crate::props::c18::rid_num;
+    use std::sync::Arc;
+    let mut tree = Tree::default();
+    tree.put("w", "a", b"v1");
+    let src = SimSource::new(tree, HotMode::Custom, 3);
+    let cache = AssetCache::with_source(src.clone());
+    let sum = |ls: &LS| ls.0.bytes.iter().map(|b| *b as u64).sum::<u64>() + 1000 * ls.0.bytes.len() as u64;
+    let plain = cache.load::<LS>("w").expect("LS");
+    let arc = cache.load::<Arc<LS>>("w").expect("Arc<LS>");
+    let cell = cache.load::<OnceInitCell<LS, u64>>("w").expect("OnceInitCell<LS>");
+    let cell_opt = cache.load::<OnceInitCell<Option<LS>, u64>>("w").expect("OnceInitCell<Option<LS>>");
+    let control = cache.load::<OnceInitCell<LA, u64>>("w").expect("OnceInitCell<LA>");
+    let v_plain = sum(&plain.read());
+    let v_arc = sum(&arc.read());
+    let v_cell = *cell.read().get_or_init(|ls| sum(ls));
+    let v_opt = *cell_opt.read().get_or_init(|ls| sum(ls.as_ref().unwrap()));
+    let _ = *control.read().get_or_init(|la| la.0.bytes.len() as u64);
+    src.tree(|t| t.put("w", "a", b"second version, longer"));
+    src.notify(file_entry("w", "a"));
+    cache.hot_reload();
+    if rid_num(control.last_reload_id()) == 0 {
+        // the control was not reloaded: nothing to conclude from this pass
+        return;
+    }
+    detsim::count("reach.optout_wrappers_pass");
+    let now: [(&str, Option<u64>, usize); 4] = [
+        ("LS", Some(sum(&plain.read())), rid_num(plain.last_reload_id())),
+        ("Arc<LS>", Some(sum(&arc.read())), rid_num(arc.last_reload_id())),
+        ("OnceInitCell<LS, _>", cell.read().get().copied(), rid_num(cell.last_reload_id())),
+        ("OnceInitCell<Option<LS>, _>", cell_opt.read().get().copied(), rid_num(cell_opt.last_reload_id())),
+    ];
+    for ((ty, v, rid), v0) in now.into_iter().zip([v_plain, v_arc, v_cell, v_opt]) {
+        detsim::check(v == Some(v0) && rid == 0, "C10/opted-out-wrapper-rewritten", || format!("{ty} of a type that opts out of hot-reloading held {v0} before the edit; after notification and hot_reload it holds {v:?} with reload id {rid}"));
+    }
+}
+
 fn scenario(w: Work) {
+    if w.front == FrontKind::Hot {
+        optout_wrappers();
+    }
     let u = universe();
     let mut all_ids = u.ids.clone();
     all_ids.extend(u.dirs.iter().cloned());
